@@ -215,7 +215,10 @@ class Doc:
         xref: str = "table",
         objstm: Optional[Iterable[int]] = None,
         order: Optional[Sequence[int]] = None,
+        mutate: Any = None,
     ) -> bytes:
+        """``mutate(kind, stream)`` (kind 'objstm' | 'xrefstm') may edit the generated
+        object stream / cross-reference stream in place before it is serialised."""
         tr: Dict[str, Any] = {}
         tr["Root"] = root
         if info is not None:
@@ -249,7 +252,10 @@ class Doc:
                 off += len(b) + 1
             h = b" ".join(head) + b"\n"
             data = h + b"\n".join(parts) + b"\n"
-            doc2.objs[osnum] = (0, Stream({"Type": N("ObjStm"), "N": len(packed), "First": len(h)}, data))
+            ostm = Stream({"Type": N("ObjStm"), "N": len(packed), "First": len(h)}, data)
+            if mutate:
+                mutate("objstm", ostm)
+            doc2.objs[osnum] = (0, ostm)
             for i, num in enumerate(packed):
                 entries[num] = (2, osnum, i)
         body, offs = doc2.body(order)
@@ -262,6 +268,8 @@ class Doc:
         sd = {"Type": N("XRef"), "Size": size, **tr}
         sd = {k: v for k, v in sd.items() if v is not DROP}
         xs = xref_stream_obj(entries, sd, W=(1, 4, 2))
+        if mutate:
+            mutate("xrefstm", xs)
         return body + b"%d 0 obj\n" % xnum + ser(xs) + b"\nendobj\nstartxref\n%d\n%%%%EOF\n" % len(body)
 
 
